@@ -90,3 +90,4 @@ pub struct DynError { _p: u8 }
 // R5: the text of the "stuck" message is not part of C02.
 #[verifier::external_body]
 pub fn stuck_message<'a>(term: &Term<'a>) -> String { unimplemented!() }
+
